@@ -22,7 +22,7 @@ import re
 
 from hypothesis import strategies as st
 
-from .. import drive
+from .. import build, drive
 from .. import findings as F
 
 PROPERTY = "C11"
@@ -827,6 +827,7 @@ def run_case(case, rec):
             live.close()
         if base_out is None:
             base_out = outs
+    build.clear_memo()      # spyne's @memoize tables keep every message class of every case alive
     rec.count("applications_built", napps)
     rec.count("specs", 1)
     if dup:
